@@ -164,7 +164,9 @@ func runC04(c *eng.Ctx) {
 		add := c.One(f, eng.AnyCallTo(cmpT+".AddReferenceFiles"), "compaction.AddReferenceFiles(logs)")
 		c.Check(eng.DominatedBy(f, run.Instr, []eng.Site{add}, nil), "references-before-run", run.Instr, f, "the reference records are in the compaction's edit log before the job runs (they are committed with the output, C03 one-commit rule)", "")
 		ns := c.One(f, eng.CallTo("kv.newCompactionState"), "newCompactionState(…, compaction)")
-		c.Check(eng.SameValue(eng.CallArgs(ns.Instr.(*ssa.Call))[2], eng.CallRecv(add.Instr.(ssa.CallInstruction))), "that-compaction-runs", ns.Instr, f, "the compaction that carries the references is the one that runs", "")
+		sameCompaction := eng.SameValue(eng.CallArgs(ns.Instr.(*ssa.Call))[2], eng.CallRecv(add.Instr.(ssa.CallInstruction))) ||
+			eng.SameValue(eng.ThroughHelper(eng.CallArgs(ns.Instr.(*ssa.Call))[2]), eng.CallRecv(add.Instr.(ssa.CallInstruction)))
+		c.Check(sameCompaction, "that-compaction-runs", ns.Instr, f, "the compaction that carries the references is the one that runs", "")
 		mk := c.One(f, eng.CallTo("var:kv.newCompactJobFunc"), "newCompactJobFunc(f, state, rollup)")
 		c.Check(p.Desc(eng.CallArgs(mk.Instr.(*ssa.Call))[2]) == "rollup", "job-is-a-rollup", mk.Instr, f, "the job is created with the rollup context (so inputs are not deleted from the target)", "")
 	})
@@ -302,54 +304,67 @@ func runC04(c *eng.Ctx) {
 			sl, ok := ia.X.Type().Underlying().(*types.Slice)
 			return ok && sl.Elem().String() == elem
 		}
-		var slotStores []eng.Site
-		for _, b := range f.Blocks {
+		hosts := []*ssa.Function{f}
+		seenHost := map[*ssa.Function]bool{f: true}
+		for _, b := range eng.BlocksT(f) {
 			for _, in := range b.Instrs {
-				if st, ok := in.(*ssa.Store); ok && isElemOf(st.Addr, "uint16") {
-					slotStores = append(slotStores, eng.Site{Fn: f, Instr: in})
+				if g := eng.TransparentCallee(in); g != nil && !seenHost[g] {
+					seenHost[g] = true
+					hosts = append(hosts, g)
 				}
 			}
 		}
-		noSlots := eng.EdgesWithFact(f, func(ft eng.Fact) bool {
-			if ft.Op != "eq" || ft.Y == nil || !eng.IsNilConst(ft.Y) {
-				return false
+		nRaw, nSlot := 0, 0
+		for _, g := range hosts {
+			var slotStores []eng.Site
+			for _, b := range g.Blocks {
+				for _, in := range b.Instrs {
+					if st, ok := in.(*ssa.Store); ok && isElemOf(st.Addr, "uint16") {
+						slotStores = append(slotStores, eng.Site{Fn: g, Instr: in})
+					}
+				}
 			}
-			sl, ok := ft.X.Type().Underlying().(*types.Slice)
-			return ok && sl.Elem().String() == "uint16"
-		})
-		nRaw := 0
-		for _, b := range f.Blocks {
-			for _, in := range b.Instrs {
-				st, ok := in.(*ssa.Store)
-				if !ok || !isElemOf(st.Addr, "float64") {
-					continue
+			nSlot += len(slotStores)
+			noSlots := eng.EdgesWithFact(g, func(ft eng.Fact) bool {
+				if ft.Op != "eq" || ft.Y == nil || !eng.IsNilConst(ft.Y) {
+					return false
 				}
-				if eng.DependsOn(st.Val, func(x ssa.Value) bool {
-					cl, ok := x.(*ssa.Call)
-					return ok && (cl.Common().IsInvoke() && cl.Common().Method.Name() == "Aggregate" || cl.Common().StaticCallee() != nil && baseName(cl.Common().StaticCallee().Name()) == "Aggregate")
-				}) {
-					continue // an aggregate of old and new value: sum / min / max fields keep no slot
+				sl, ok := ft.X.Type().Underlying().(*types.Slice)
+				return ok && sl.Elem().String() == "uint16"
+			})
+			for _, b := range g.Blocks {
+				for _, in := range b.Instrs {
+					st, ok := in.(*ssa.Store)
+					if !ok || !isElemOf(st.Addr, "float64") {
+						continue
+					}
+					if eng.DependsOn(st.Val, func(x ssa.Value) bool {
+						cl, ok := x.(*ssa.Call)
+						return ok && (cl.Common().IsInvoke() && cl.Common().Method.Name() == "Aggregate" || cl.Common().StaticCallee() != nil && baseName(cl.Common().StaticCallee().Name()) == "Aggregate")
+					}) {
+						continue // an aggregate of old and new value: sum / min / max fields keep no slot
+					}
+					if _, isConst := st.Val.(*ssa.Const); isConst {
+						continue
+					}
+					nRaw++
+					header := innermostLoop(g, b)
+					_, unpaired := eng.PathExists(eng.PathQuery{Fn: g, After: in,
+						Target: func(x ssa.Instruction) bool {
+							if _, isRet := x.(*ssa.Return); isRet {
+								return true
+							}
+							return header != nil && x.Block() == header && x == header.Instrs[0]
+						},
+						Blocked: func(x ssa.Instruction) bool { return instrIn(x, slotStores) },
+						Edge:    eng.ForbidEdges(noSlots)})
+					c.Check(!unpaired, fmt.Sprintf("slot-follows-the-value[%d]", nRaw), in, g,
+						"whenever a First/Last field takes a new value into a target position, the position's remembered source slot is set to that value's slot in the same iteration; a stale slot lets a later block replace (or fail to replace) the value against the wrong reference",
+						"a path from this store to the next iteration sets no remembered slot although the field keeps slots")
 				}
-				if _, isConst := st.Val.(*ssa.Const); isConst {
-					continue
-				}
-				nRaw++
-				header := innermostLoop(f, b)
-				_, unpaired := eng.PathExists(eng.PathQuery{Fn: f, After: in,
-					Target: func(x ssa.Instruction) bool {
-						if _, isRet := x.(*ssa.Return); isRet {
-							return true
-						}
-						return header != nil && x.Block() == header && x == header.Instrs[0]
-					},
-					Blocked: func(x ssa.Instruction) bool { return instrIn(x, slotStores) },
-					Edge:    eng.ForbidEdges(noSlots)})
-				c.Check(!unpaired, fmt.Sprintf("slot-follows-the-value[%d]", nRaw), in, f,
-					"whenever a First/Last field takes a new value into a target position, the position's remembered source slot is set to that value's slot in the same iteration; a stale slot lets a later block replace (or fail to replace) the value against the wrong reference",
-					"a path from this store to the next iteration sets no remembered slot although the field keeps slots")
 			}
 		}
-		c.Check(nRaw >= 2 && len(slotStores) >= 1, "raw-stores-found", nil, f, "values are taken over (first value of a position, replacement for First/Last)", fmt.Sprintf("%d raw stores, %d slot stores", nRaw, len(slotStores)))
+		c.Check(nRaw >= 2 && nSlot >= 1, "raw-stores-found", nil, f, "values are taken over (first value of a position, replacement for First/Last)", fmt.Sprintf("%d raw stores, %d slot stores", nRaw, nSlot))
 	})
 
 	// ---- slot of a timestamp inside its family: the offset from the family start is never folded below the family's length ------
@@ -424,8 +439,21 @@ func rollupCommitBeforeClean(c *eng.Ctx) {
 	_ = p
 	f := c.Fn(famT + ".rollup")
 	var body *ssa.Function
-	for _, cl := range eng.Closures(f) {
-		if len(p.Sites(cl, invokeOn("", "doRollupWork"))) > 0 {
+	cands := append([]*ssa.Function{}, eng.Closures(f)...)
+	for _, g := range eng.Closures(f) {
+		for _, b := range g.Blocks {
+			for _, in := range b.Instrs {
+				// the goroutine body as a method: go f.backgroundRollupJob(...)
+				if gi, ok := in.(*ssa.Go); ok {
+					if callee := gi.Common().StaticCallee(); callee != nil && callee.Blocks != nil {
+						cands = append(cands, eng.Closures(callee)...)
+					}
+				}
+			}
+		}
+	}
+	for _, cl := range cands {
+		if len(p.SitesDirect(cl, invokeOn("", "doRollupWork"))) > 0 {
 			body = cl
 		}
 	}
@@ -470,24 +498,35 @@ func rollupCommitBeforeClean(c *eng.Ctx) {
 func referenceKeySymmetry(c *eng.Ctx) {
 	p := c.P
 	_ = p
+	// the receiver of a call is the source family itself, or a helper's parameter that receives it
+	recvIs := func(recv ssa.Value, src ssa.Value) bool {
+		return recv == src || eng.DependsOn(recv, func(x ssa.Value) bool { return x == src })
+	}
 	isSrcID := func(v ssa.Value, src ssa.Value) bool {
-		direct := func(x ssa.Value) bool {
+		srcID := func(x ssa.Value) bool {
 			cl, ok := x.(*ssa.Call)
-			return ok && cl.Common().IsInvoke() && cl.Common().Method.Name() == "ID" && cl.Common().Value == src
+			return ok && cl.Common().IsInvoke() && cl.Common().Method.Name() == "ID" && recvIs(cl.Common().Value, src)
 		}
-		if direct(v) {
-			return true
+		otherID := func(x ssa.Value) bool {
+			cl, ok := x.(*ssa.Call)
+			if !ok {
+				return false
+			}
+			name := ""
+			if cl.Common().IsInvoke() {
+				name = cl.Common().Method.Name()
+			} else if g := cl.Common().StaticCallee(); g != nil {
+				name = baseName(g.Name())
+			}
+			return name == "ID" && !recvIs(eng.CallRecv(cl), src)
 		}
-		// the id may travel through a helper's parameter; nothing else (no other call) may be mixed in
-		if _, isParam := v.(*ssa.Parameter); isParam {
-			return eng.DependsOn(v, direct)
-		}
-		return false
+		// the id is ID() of the source family (directly, through a helper's parameter or a small struct) and of no other family
+		return eng.DependsOn(v, srcID) && !eng.DependsOn(v, otherID)
 	}
 	fromSrcStore := func(v ssa.Value, src ssa.Value) bool {
 		return eng.DependsOn(v, func(x ssa.Value) bool {
 			cl, ok := x.(*ssa.Call)
-			return ok && cl.Common().IsInvoke() && cl.Common().Method.Name() == "getStore" && cl.Common().Value == src
+			return ok && cl.Common().IsInvoke() && cl.Common().Method.Name() == "getStore" && recvIs(cl.Common().Value, src)
 		})
 	}
 	w := c.Fn(famT + ".doRollupWork")
@@ -551,6 +590,28 @@ func commitResultExamined(c *eng.Ctx) {
 			k := topFunc(c, fn)
 			if why, ok := exempt[k]; ok {
 				c.Check(true, "exempt@"+k, s.Instr, fn, "the result of this commit need not be examined: "+why, "")
+				continue
+			}
+			// the trivial move written in place in its caller: the commit lies under the IsTrivialMove() test
+			conds, _ := eng.GuardingConds(fn, s.Instr)
+			trivial := false
+			for _, cd := range conds {
+				if eng.DependsOn(cd, func(x ssa.Value) bool {
+					cl, ok := x.(*ssa.Call)
+					if !ok {
+						return false
+					}
+					if cl.Common().IsInvoke() {
+						return cl.Common().Method.Name() == "IsTrivialMove"
+					}
+					g := cl.Common().StaticCallee()
+					return g != nil && baseName(g.Name()) == "IsTrivialMove"
+				}) {
+					trivial = true
+				}
+			}
+			if trivial {
+				c.Check(true, "exempt@"+k+":trivial-move", s.Instr, fn, "the result of this commit need not be examined: "+exempt["kv.compactJob.moveCompaction"], "")
 				continue
 			}
 			v := s.Instr.(ssa.Value)
